@@ -122,6 +122,10 @@ def handle (ws : List String) : String :=
       match unhex hx >>= Sexp.parse with
       | some s => runGeomComp s
       | none => "err bad-sexp"
+  | ["compmodel", hx] =>
+      match unhex hx >>= Sexp.parse with
+      | some s => runCompModel s
+      | none => "err bad-sexp"
   | ["pottransform", hx] =>
       match unhex hx >>= Sexp.parse with
       | some s => runPotTransform s
